@@ -697,7 +697,8 @@ def struct_stream(ctx, cirq, V, n, unroll_n=60):
                               deep_moments=(len(obs['deep'][1]) if obs['deep'][0] == 'ok' else obs['deep'][1])))
         for feat in struct_features(D):
             ctx.streams['feature:' + feat] += 1
-        spec_struct(ctx, cirq, V, op, D, obs, do_unroll=(len(rows) <= unroll_n))
+        spec_struct(ctx, cirq, V, op, D, obs, do_unroll=(len(rows) <= (unroll_n if ctx.tier == 'quick' else 10 * unroll_n)))
+        spec_repeat(ctx, cirq, V, op, D, rng)
         spec_commute(ctx, cirq, V, op, D, g, m2, pm2, path, bind)
     # ---- the model, evaluated on the same records
     lines = [struct_row_text(r) for r in rows]
@@ -1156,6 +1157,40 @@ def late_bound(cirq, flat):
                     return True
             seen.add(str(k))
     return False
+
+
+def spec_repeat(ctx, cirq, V, op, D, rng):
+    """repeat of repeat = one repeat with the product count (and, with ids, the cartesian product of the ids)."""
+    if isinstance(D['reps'], tuple) or D['until'] is not None:
+        return
+    a, b = rng.choice([1, 2, 3, -1]), rng.choice([1, 2, -1, -2])
+    rep = dict(kind='struct', rec=D, which='repeat', a=a, b=b)
+    if (a < 0 or b < 0) and attempt(lambda: op ** -1)[0] != 'ok':
+        return
+    with_ids = rng.random() < 0.4 and D['ids'] is None and not D['use']
+    if with_ids:
+        A, B = [f'i{j}' for j in range(abs(a))], [f'j{j}' for j in range(abs(b))]
+        lhs = attempt(lambda: op.repeat(a, A).repeat(b, B))
+        rhs = attempt(lambda: op.repeat(a * b, [f'{y}-{x}' for y in B for x in A]))
+    else:
+        lhs = attempt(lambda: op.repeat(a).repeat(b))
+        rhs = attempt(lambda: op.repeat(a * b))
+    if lhs[0] != 'ok' or rhs[0] != 'ok':
+        if lhs[:2] != rhs[:2]:
+            ctx.violation('repeat-of-repeat:raises', f'repeat({a}) then repeat({b}) gives {lhs[1:]}, repeat({a * b}) gives {rhs[1:]} for {op!r}'[:1500], rep)
+        return
+    if not with_ids and D['use']:
+        # default ids of a repeated operation with ids are joined ('0-x'), a single repeat keeps one level: compare the key COUNT only
+        ka, kb = attempt(lambda: len(cirq.measurement_key_objs(lhs[1]))), attempt(lambda: len(cirq.measurement_key_objs(rhs[1])))
+        if ka != kb:
+            ctx.violation('repeat-of-repeat:key-count', f'repeat({a}).repeat({b}) reports {ka} keys, repeat({a * b}) {kb}: {op!r}'[:1500], rep)
+        return
+    x, y = attempt(lambda: lhs[1].mapped_circuit(deep=True)), attempt(lambda: rhs[1].mapped_circuit(deep=True))
+    same = x[0] == y[0] and (x[0] != 'ok' or x[1] == y[1])
+    same = same and attempt(lambda: cirq.measurement_key_objs(lhs[1])) == attempt(lambda: cirq.measurement_key_objs(rhs[1]))
+    if not same and not f13_explains(ctx, cirq, V, D, [x, y]):
+        ctx.violation('repeat-of-repeat', f'repeat({a}) then repeat({b}) differs from repeat({a * b}) (ids={with_ids}): {op!r}'[:1500], rep)
+    ctx.streams['spec:repeat-of-repeat'] += 1
 
 
 def subs_of(D):
